@@ -25,8 +25,8 @@ for id in $ids; do
     mkdir -p /tmp/seedverif
     ./seedrun.sh /repo $p quick > $out 2>&1
     rc=$?
-    line=$(grep -E "^$p quick" $out | tail -1)
-    sigs=$(grep -v "^KNOWN" $out | grep -E "^ +[0-9]+  " | awk '{print $2"("$1")"}' | head -6 | tr '\n' ' ')
+    line=$(grep -aE "^$p quick" $out | tail -1)
+    sigs=$(grep -av "^KNOWN" $out | grep -aE "^ +[0-9]+  " | awk '{print $2"("$1")"}' | head -6 | tr '\n' ' ')
     printf "%s\t%s\t%s\texit=%s\t%s\t%s\n" "$id" "$p" "$head" "$rc" "$line" "$sigs" | tee -a seeded/RESULTS.tsv
   done
   git -C /repo checkout -- .
